@@ -1048,6 +1048,10 @@ func genC10(g *G, sc *Scenario, tier string, seed uint64) {
 			// store in chunks so that a source write is not limited by anything
 			sc.Ops = append(sc.Ops, Op{K: "batch", DS: "srcA", Ents: ents})
 		}
+		if len(ents) >= 2 && g.P(0.2) {
+			// the job is killed while a transform worker is starting; the run after it has to make up for it
+			sc.Ops = append(sc.Ops, Op{K: "run", S: "job1", DS: jobType, M: map[string]any{"killTransformAt": g.Range(1, len(ents))}})
+		}
 		sc.Ops = append(sc.Ops, Op{K: "run", S: "job1", DS: jobType, N: 1})
 	}
 	sc.Note = fmt.Sprintf("cell count=%d batch=%d parallelism=%d %s %s", count, batch, par, jobType, variant)
